@@ -432,6 +432,11 @@ def check(pid, tier, seed):
     import props
     t0 = time.time()
     units = props.units(pid, tier, seed)
+    if units is not None and tier == 'thorough':
+        for u in units:
+            if not u.get('c20'):
+                u.setdefault('cfg', {})
+                u['cfg'].setdefault('cross_check', 24)
     if units is None:
         print(f'property {pid} has no check (see MANIFEST not_applicable)')
         return 2
@@ -542,6 +547,8 @@ def write_evidence(pid, tier, seed, results, violations, known_hits, inconclusiv
             'source_adaptations': frontend_note,
             'known_findings_applied': {k: v[:10] for k, v in known_hits.items()},
             'sabotage_twins_refuted': witness_ok,
+            'second_solver_cvc5': {k: round(sum((r.get('cross_check') or {}).get(k, 0) for r in real), 1)
+                                   for k in ('done', 'agree', 'disagree', 'unknown', 'error', 'skipped', 'time')},
             'differential_mismatches': sum(len(r.get('diff', {}).get('mismatches', [])) for r in real),
             'inconclusive': inconclusive[:20],
             'unconfirmed_counterexamples': unconfirmed[:10],
